@@ -65,6 +65,13 @@ Proof.
   rewrite H2. destruct x as [|x0 x]; [contradiction|]. reflexivity.
 Qed.
 
+Lemma remove_loop_once fuel s s' g f : fuel <> [] -> remove_step s = Some (s', g, f) -> remove_step s' = None ->
+  remove_loop fuel s false [] [] = Some {| rm_found := true; rm_content := s'; rm_gs := g; rm_fm := f |}.
+Proof.
+  intros Hne H1 H2. destruct fuel as [|b fuel]; [contradiction|]. cbn [remove_loop]. rewrite H1.
+  destruct fuel; cbn [remove_loop]; rewrite H2; reflexivity.
+Qed.
+
 Section Block.
   Variables mtx x y : bytes.
   Hypothesis Hok : wm_ok mtx x y = true.
@@ -186,12 +193,10 @@ Section Block.
     = Some {| rm_found := true; rm_content := u ++ w; rm_gs := [gs]; rm_fm := [xo] |}.
   Proof.
     intros Hu Hn. unfold remove_artifacts.
-    remember (u ++ marker ++ wm_body mtx gs xo ++ emc ++ w) as s eqn:Hs.
-    assert (Hne : s <> []).
-    { rewrite Hs. unfold marker. destruct u; discriminate. }
-    destruct s as [|b fuel] eqn:Hfu; [contradiction|]. rewrite <- Hfu. clear Hfu.
-    cbn [remove_loop]. rewrite Hs at 1. rewrite (remove_step_block u w Hu).
-    destruct fuel; cbn [remove_loop]; rewrite (remove_step_clean _ Hn); reflexivity.
+    apply remove_loop_once.
+    - unfold marker. destruct u; discriminate.
+    - apply remove_step_block. exact Hu.
+    - apply remove_step_clean. exact Hn.
   Qed.
 End Block.
 
